@@ -612,6 +612,24 @@ func ruleL2(c *Ctx) {
 		c.anchorFail("no uint16 packing expression `a<<k | b<<j | ...` found in package compile")
 		return
 	}
+	// a flag bit added separately: entry |= 1
+	ast.Inspect(gen.Body, func(n ast.Node) bool {
+		as, ok := n.(*ast.AssignStmt)
+		if !ok || as.Tok != token.OR_ASSIGN || len(as.Rhs) != 1 {
+			return true
+		}
+		if t := info.TypeOf(as.Lhs[0]); t == nil || t.String() != "uint16" {
+			return true
+		}
+		if k, isK := constOf(info, as.Rhs[0]); isK && k > 0 && k&(k-1) == 0 {
+			sh := int64(0)
+			for (k >> sh) != 1 {
+				sh++
+			}
+			enc[fmt.Sprintf("flag bit %d", sh)] = &bitField{name: fmt.Sprintf("flag bit %d", sh), shift: sh, width: 1, pos: as.Pos()}
+		}
+		return true
+	})
 	// clip bounds and pc saturation
 	ast.Inspect(gen.Body, func(n ast.Node) bool {
 		switch x := n.(type) {
@@ -730,12 +748,17 @@ func ruleL2(c *Ctx) {
 					}
 				}
 			}
-		case *ast.IfStmt:
-			if b, ok := x.Cond.(*ast.BinaryExpr); ok {
-				if in, ok := b.X.(*ast.ParenExpr); ok {
-					if a, ok := in.X.(*ast.BinaryExpr); ok && a.Op == token.AND {
-						if k, isK := constOf(info, a.Y); isK && k == 1 {
-							decf["incomplete"] = &decField{lo: 0, hi: 1, pos: x.Pos()}
+		case *ast.BinaryExpr:
+			// a flag test: x & 1 (in whatever statement form)
+			if x.Op == token.AND {
+				if k, isK := constOf(info, x.Y); isK && k > 0 && k&(k-1) == 0 && k < 1<<15 {
+					if t := info.TypeOf(x.X); t != nil && (t.String() == "uint16" || t.String() == "int16") {
+						sh := int64(0)
+						for (k >> sh) != 1 {
+							sh++
+						}
+						if _, dup := decf[fmt.Sprintf("flag bit %d", sh)]; !dup {
+							decf[fmt.Sprintf("flag bit %d", sh)] = &decField{lo: sh, hi: sh + 1, pos: x.Pos()}
 						}
 					}
 				}
@@ -743,28 +766,42 @@ func ruleL2(c *Ctx) {
 		}
 		return true
 	})
-	match := map[string]string{"deltapc": "pc", "deltaline": "line", "deltacol": "col", "incomplete": "incomplete"}
+	// match encoder and decoder fields by the bits they occupy (names are for messages only)
+	usedDec := map[string]bool{}
 	for _, f := range fs {
-		dn, ok := match[f.name]
 		key := "decodeLNT: field " + f.name
-		if !ok {
-			c.viol(key, c.P.Pos(f.pos), "encoder packs a field with no known decoder counterpart")
-			continue
+		var dn string
+		var d *decField
+		for n, x := range decf {
+			if x.lo == f.shift && x.hi == f.shift+f.width {
+				dn, d = n, x
+			}
 		}
-		d := decf[dn]
 		if d == nil {
-			c.viol(key, c.P.Pos(dec.Pos()), "decodeLNT does not extract "+dn)
+			// is some decoder field overlapping these bits?
+			for n, x := range decf {
+				if x.lo < f.shift+f.width && f.shift < x.hi && !usedDec[n] {
+					dn, d = n, x
+				}
+			}
+			if d == nil {
+				c.viol(key, c.P.Pos(dec.Pos()), fmt.Sprintf("decodeLNT extracts nothing from bits [%d,%d), which the encoder fills with %s", f.shift, f.shift+f.width, f.name))
+			} else {
+				c.viol(key, c.P.Pos(d.pos), fmt.Sprintf("decoder reads %s from bits [%d,%d) but the encoder packs %s into bits [%d,%d)", dn, d.lo, d.hi, f.name, f.shift, f.shift+f.width))
+			}
 			continue
 		}
-		if d.lo != f.shift || d.hi != f.shift+f.width {
-			c.viol(key, c.P.Pos(d.pos), fmt.Sprintf("decoder reads %s from bits [%d,%d) but the encoder packs it into bits [%d,%d)", dn, d.lo, d.hi, f.shift, f.shift+f.width))
-			continue
-		}
-		if d.signed != f.signed {
+		usedDec[dn] = true
+		if f.width > 1 && d.signed != f.signed {
 			c.viol(key, c.P.Pos(d.pos), fmt.Sprintf("signedness differs for %s (encoder signed=%v, decoder sign-extends=%v)", dn, f.signed, d.signed))
 			continue
 		}
 		c.ok(key, c.P.Pos(d.pos), fmt.Sprintf("bits [%d,%d) signed=%v on both sides", d.lo, d.hi, d.signed))
+	}
+	for n, x := range decf {
+		if !usedDec[n] {
+			c.viol("decodeLNT: field "+n, c.P.Pos(x.pos), fmt.Sprintf("decoder reads %s from bits [%d,%d), which no encoder field occupies exactly", n, x.lo, x.hi))
+		}
 	}
 }
 
